@@ -20,25 +20,14 @@
 
 package internal
 
-import (
-	"bytes"
-	"strconv"
-)
+import "strconv"
 
 // UnquoteSingleQuoted unquotes a slice of bytes representing a single quoted
 // string.
 //
 //	UnquoteSingleQuoted([]byte("'foo'")) == "foo"
 func UnquoteSingleQuoted(in []byte) (string, error) {
-	out := string(swapQuotes(unescapeQuotes(in, '"')))
-	str, err := strconv.Unquote(out)
-	if err != nil {
-		return str, err
-	}
-
-	// s/'/"/g, s/"/'/g
-	out = string(swapQuotes([]byte(str)))
-	return out, nil
+	return unquote(in, '\'')
 }
 
 // UnquoteDoubleQuoted unquotes a slice of bytes representing a double quoted
@@ -46,29 +35,36 @@ func UnquoteSingleQuoted(in []byte) (string, error) {
 //
 //	UnquoteDoubleQuoted([]byte("\"foo\"")) == "foo"
 func UnquoteDoubleQuoted(in []byte) (string, error) {
-	return strconv.Unquote(string(unescapeQuotes(in, '\'')))
+	return unquote(in, '"')
 }
 
-// unescapeQuotes unescapes all occurences of a quote character in a string.
-//
-//	unescapeQuotes([]byte{'\\', '"'}, '"') == []byte{'"'}
-//	unescapeQuotes([]byte{'\\', '\''}, '\'') == []byte{'\''}
-func unescapeQuotes(in []byte, quote byte) []byte {
-	return bytes.ReplaceAll(in, []byte{'\\', quote}, []byte{quote})
-}
-
-// swapQuotes replaces all single quotes with double quotes and all double
-// quotes with single quotes.
-func swapQuotes(in []byte) []byte {
-	// s/'/"/g, s/"/'/g
-	out := make([]byte, len(in))
-	for i, c := range in {
-		if c == '"' {
-			c = '\''
-		} else if c == '\'' {
-			c = '"'
-		}
-		out[i] = c
+// unquote rewrites the literal, one escape sequence at a time, as a Go
+// double quoted string and unquotes that. Both quote characters may be
+// escaped in both kinds of literal.
+func unquote(in []byte, quote byte) (string, error) {
+	if len(in) < 2 || in[0] != quote || in[len(in)-1] != quote {
+		return "", strconv.ErrSyntax
 	}
-	return out
+
+	body := in[1 : len(in)-1]
+	out := make([]byte, 0, len(in)+2)
+	out = append(out, '"')
+	for i := 0; i < len(body); i++ {
+		switch c := body[i]; {
+		case c == '\\' && i+1 < len(body):
+			i++
+			if body[i] == '\'' {
+				// Go does not allow \' inside double quotes.
+				out = append(out, '\'')
+			} else {
+				out = append(out, '\\', body[i])
+			}
+		case c == '"':
+			out = append(out, '\\', '"')
+		default:
+			out = append(out, c)
+		}
+	}
+	out = append(out, '"')
+	return strconv.Unquote(string(out))
 }
